@@ -46,22 +46,23 @@ inductive Ev where
   | writeFF46 (v : BitVec 8)
   | cycle
 
-/-- (page, machine cycles since) of the most recent write to FF46, if any -/
-def lastStart : List Ev → Option (BitVec 8 × Nat)
+/-- looking back from the present (MOST RECENT event first): the value of the most recent write to
+    FF46 and the number of machine cycles since -/
+def lookBack : List Ev → Option (BitVec 8 × Nat)
   | [] => none
-  | .writeFF46 v :: rest =>
-      (match lastStart rest with
-       | some p => some p
-       | none => some (v, (rest.filter fun e => match e with | .cycle => true | _ => false).length))
-  | .cycle :: rest => lastStart rest
+  | .writeFF46 v :: _ => some (v, 0)
+  | .cycle :: earlier => (lookBack earlier).map fun p => (p.1, p.2 + 1)
+
+/-- the same for a chronological history (oldest event first) -/
+def lastStart (h : List Ev) : Option (BitVec 8 × Nat) := lookBack h.reverse
 
 /-- value read from FF46 after a history (0 at power-on) -/
-def ff46 : List Ev → BitVec 8
-  | [] => 0
-  | .writeFF46 v :: rest => (match lastStart rest with | some p => p.1 | none => v)
-  | .cycle :: rest => ff46 rest
+def ff46 (h : List Ev) : BitVec 8 :=
+  match lastStart h with
+  | some p => p.1
+  | none => 0
 
-/-- is a transfer running after a history? -/
+/-- is a transfer running (OAM blocked) after a history? -/
 def transferRunning (h : List Ev) : Bool :=
   match lastStart h with
   | some p => busy p.2
